@@ -82,6 +82,45 @@ CHECKS["C05"] = (
     "Trusted: refiso/refstereo; full-graph mode; bond roles are not part of the function's notion of structure.",
     "DESIGN.md 5/C05")
 
+CHECKS["C06"] = (
+    ENUM + " (reference mirror image + brute-force search for an isomorphism onto it)",
+    "Every stereo spec of the universes (all descriptor classes, all stereoisomers, placeholders, unspecified parity, axis "
+    "chirality, stereo changes on atoms and bonds, with attributes): enantiomer() must equal the reference mirror image, leave "
+    "the original untouched, be an involution, and g == g.enantiomer() iff the oracle finds an isomorphism onto the mirror.",
+    "Trusted: refgraph.mirror / refstereo / refiso.", "DESIGN.md 5/C06")
+CHECKS["C08"] = (
+    ENUM + " (all reactant/product/TS triples over a common atom set)",
+    "All triples of bond sets on n<=3 atoms (n=4 with bounded bond count) with TS absent or any superset, and all 4^3 "
+    "combinations of {none, isomer 1, isomer 2, other class} on one atom centre and one bond in R, P and TS: reactant()/product() "
+    "reproduce R/P, formed/broken/fleeting bonds are the set differences, reverse_reaction swaps sides incl. stereo, keeps "
+    "fleeting bonds/stereo and is an involution.",
+    "Trusted: reference model; the stereo of the reconstructed TS and non-role attributes are not compared.", "DESIGN.md 5/C08")
+CHECKS["C10"] = (
+    ENUM + " (sources x derivations x every single follow-up edit x both sides; snapshot of the untouched side)",
+    "For each source spec of all classes with attributes/descriptors/changes, each derivation (copy, copy-construct incl. "
+    "cross-class, relabel copy, subgraph, compose, enantiomer, reverse_reaction, reactant, product, JSON) and each single edit "
+    "from the full mutator menu applied to the derived graph and to the source, the other graph's snapshot must not change.",
+    "Trusted: snapshot of private containers; single follow-up edits only.", "DESIGN.md 5/C10")
+CHECKS["C11"] = (
+    ENUM + " (specs x all injective total/partial mappings x copy/in-place; differential follow-ups against a fresh build)",
+    "Every spec with <=5 atoms x all total permutations, pool injections and all partial mappings x copy/in-place: result equals "
+    "the reference renaming, copy and in-place agree, the inverse mapping restores the original, and every follow-up edit / "
+    "==/hash/matrix/components behaves as on a freshly built graph with the same labelled content.",
+    "Trusted: refgraph.relabel; mappings with injective induced total map only.", "DESIGN.md 5/C11")
+CHECKS["C15"] = (
+    ENUM + " (all specs x three identifier pools; snapshot identity after the round trip)",
+    "Every spec of all four universes (every descriptor class, parity incl. None, placeholders, formed/broken/fleeting bonds, all 7 "
+    "kind combinations of atom and bond stereo changes, empty graph) in three identifier pools (0..n-1, negative, >=2^31): "
+    "deserialize(serialize(g)) has the same class, an identical snapshot, compares equal and hashes equal.",
+    "Trusted: snapshot; attributes other than element/role are not part of the format.", "DESIGN.md 5/C15")
+CHECKS["C17"] = (
+    ENUM + " (all subsets x 7 container kinds; all 3^n two-piece covers; all component orders)",
+    "Every spec with <=5 atoms x every subset S passed as list/tuple/set/frozenset/dict keys/generator/iterator: subgraph equals "
+    "the induced labelled subgraph of the reference model; components equal the union-find partition; compose over all 3^n "
+    "covers by two (overlapping) pieces equals the labelled union with later-wins; composing the component subgraphs in every "
+    "order reproduces the graph.",
+    "Trusted: refgraph.subgraph/compose/components.", "DESIGN.md 5/C17")
+
 NOT_YET = {
 }
 
